@@ -23,9 +23,31 @@ CHECKS = [
   'value stored into a text range is NULL, the placeholder or inside [first, afterLast]; every non-success final configuration has '
   'no live block and NULL ip4/ip6/pathHead/pathTail; allocation failure returns URI_ERROR_MALLOC. Plus free-then-NULL and '
   'sink-coverage rules on the release function.'),
+ ('C04', 'other', 'evaluation of the recomposer from source on all component-presence combinations (abstract machine, concrete mode)',
+  'Conditional on C02. From the recomposer source, for every combination of component presence / emptiness / host kind / flag / '
+  'segment shape: output = RFC 3986 5.3 recomposition; all 256 octet and byte renderings exact; component texts are copied opaquely '
+  '(memcpy only), so the sample texts stand for arbitrary ones. Not a proof over all URIs by itself: it composes with C01/C02/C11.'),
  ('C05', 'proof', 'static symbolic bounded-write analysis',
   'Every store through the destination buffer of the recomposer is dominated by a capacity comparison with the same length, the '
   'measuring and writing branches add the same linear amounts, failure exits reset the output; all paths, both character types.'),
+ ('C06', 'other', 'static path enumeration with provenance terms against the RFC 3986 5.2.2 table',
+  'Partial: every success path of the resolution engine is compared with the 5.2.2 table (scheme / authority / path term / query / '
+  'fragment provenance under the five RFC predicates incl. the compatibility option), relative-base code, ambiguity guard on every '
+  'possibly host-less dot-removal result, exact guard condition, contracts of the copy helpers. Not decided: that merge and '
+  'dot-segment removal implement 5.2.3 / 5.2.4 on the segment list.'),
+ ('C07', 'other', 'static must-pass-through and fact-flow rules over all producers',
+  'Partial: ambiguity guard after every path rebuild of a possibly host-less result (resolution, reference creation, normalisation), '
+  'flag reconciliation, both ends of a range written together, fresh terminated nodes become the tail. One known finding '
+  '(normalisation leaves "/.//x" unguarded). Not decided: re-read equality for all operation sequences.'),
+ ('C08', 'other', 'finite tables evaluated from source (abstract machine, concrete mode) + dominance rules in the engine',
+  'Partial: unreserved / hex / case tables on their whole domain, percent-triplet transformer on all hex pairs and adjacent '
+  'triplets, mask query true exactly where the transformer changes something, transformer calls dominated by their mask bit and '
+  'outMask == NULL, in-place and copying branches apply the same steps in the same order, relative-reference flag. Not decided: '
+  'dot-segment removal, idempotence.'),
+ ('C10', 'other', 'static path enumeration: authority predicate coverage and provenance per branch',
+  'Partial: the predicate that lets the authority be omitted compares user info, host by kind and port on every "equal" path; '
+  'provenance per branch; "./" guard; error codes before allocation. Not decided: that the prefix walk and ".." emission invert '
+  'resolution.'),
  ('C11', 'proof', 'static path enumeration with field obligations',
   'Every path of uriEqualsUri / uriCompareRange is enumerated with the primitive tests as atoms; a TRUE return has established '
   'equality of every content field of the URI structure, a FALSE return a difference; NULL cases, symmetry, no writes.'),
@@ -59,13 +81,8 @@ CHECKS = [
 
 NA = [
  ('C02', 'check not built yet in this session (see DESIGN.md)'),
- ('C04', 'check not built yet in this session (see DESIGN.md)'),
- ('C06', 'check not built yet in this session (see DESIGN.md)'),
- ('C07', 'check not built yet in this session (see DESIGN.md)'),
- ('C08', 'check not built yet in this session (see DESIGN.md)'),
  ('C09', 'a relation between two operations over all (reference, base) pairs whose truth rests on the dot-segment list algorithm; '
          'no clause is visible in the shape of the code (DESIGN.md section 4 C09, section 5)'),
- ('C10', 'check not built yet in this session (see DESIGN.md)'),
  ('C18', 'round trip between two string loops plus an amortised size formula; outside what the static domains here can express '
          '(DESIGN.md section 4 C18)'),
 ]
